@@ -54,9 +54,32 @@ def _fresh(r, **kw):
     r.cmd(dict(op="observe", enabled=True, record=True, check_stack=False, max_records=50000))
 
 
-def _final_usable(r, ctx):
+def _final_usable(r, ctx, stepwise=False):
     """after any sequence the VM accepts further actions: clear it and run a fresh script to completion"""
     st_ = r.cmd(dict(op="state", vm=0))
+    if stepwise and st_["state"] not in ("halted", "halted_error"):
+        # whatever is left (scripts not yet run, finished or empty contexts) stays: the fresh script is stepped behind it
+        r.cmd(dict(op="load", vm=0, sqf="U = []; U pushBack 1; U pushBack 2;", file="fresh.sqf"))
+        last, empties, steps = None, 0, 0
+        for steps in range(1500):
+            last = r.cmd(dict(op="action", vm=0, action="assembly_step"))
+            if last["result"] == "empty":
+                empties += 1
+                if empties >= 3:
+                    break
+            elif last["result"] == "ok":
+                empties = 0
+            else:
+                break
+        rep = r.cmd(dict(op="getvar", vm=0, name="U"))
+        got = vm_value(rep["value"]) if rep.get("exists") else None
+        if last["result"] == "runtime_error":
+            r.cmd(dict(op="action", vm=0, action="abort"))
+            return None         # a script of the situation raised its error while being stepped: not what is probed here
+        if got != [1.0, 2.0]:
+            return viol("vm-unusable-afterwards|stepwise", ctx + "after the sequence a script loaded afterwards cannot be stepped to its end with assembly_step (%d steps, last result=%s state=%s): U=%s" % (
+                steps + 1, last["result"], last["state"], got))
+        return None
     if st_["state"] in ("halted", "halted_error"):
         rep = r.cmd(dict(op="action", vm=0, action="abort"))
         if rep["result"] != "ok" or rep["state"] != "empty":
@@ -106,6 +129,11 @@ def _check_seq(case, env):
             labs.add("refused")
             if state != before["state"]:
                 v = viol("refused-changed-state|%s" % a, ctx + "a refused action changed the state from %s to %s" % (before["state"], state))
+        if v is None and a in ("start", "assembly_step", "line_step", "leave_scope") and not before["contexts"]:
+            # no script is loaded (never was, all finished, or discarded by abort): nothing may get executed
+            if executed != 0 or res not in ("empty",):
+                v = viol("executes-without-script|%s" % a, ctx + "no script is loaded (state %s, 0 scripts), yet %s executed %d instruction(s) and returned %s: %s" % (
+                    before["state"], a, executed, res, [rc[4] for rc in obs.get("recs", [])[:3]]))
         if v is None and a == "stop" and res != "action_error":
             v = viol("stop-when-not-running", ctx + "stop on a VM that is not running returned %s" % res)
         if v is None and a == "abort":
@@ -138,7 +166,7 @@ def _check_seq(case, env):
         if v is not None:
             break
     if v is None:
-        v = _final_usable(r, "situation: %s\nactions (action, result, state, executed): %s\n" % (sit, trace))
+        v = _final_usable(r, "situation: %s\nactions (action, result, state, executed): %s\n" % (sit, trace), stepwise=(len(case["actions"]) % 2 == 0))
     nontrivial = bool(labs & {"step", "refused"})
     return Result(nontrivial=nontrivial, labels=sorted(labs | ({"nontrivial"} if nontrivial else set())), violation=v)
 
